@@ -145,6 +145,11 @@ fn emit() {
         if p.name == "c17pda" {
             // the hand-written FULL layouts of the types that use #[type_to_idl(skip)] (pdaprog/src/lib.rs)
             o["skip_manifest"] = serde_json::from_str(c17pda::C17_SKIP_MANIFEST).expect("C17_SKIP_MANIFEST is JSON");
+            // what the runtime hashes for every seeded instruction account (keys = c17_key_of(field path))
+            o["runtime_seeds"] = json!(c17pda::c17_runtime_seeds().iter()
+                .map(|(ix, path, seeds)| json!({"instruction": ix, "path": path,
+                    "seeds": seeds.iter().map(|s| s.iter().map(|b| *b as u64).collect::<Vec<_>>()).collect::<Vec<_>>()}))
+                .collect::<Vec<_>>());
             // what the `fixed` crate says about the fixed-point fields of c17pda::Rates
             o["fixed_manifest"] = json!({"c17pda::Rates": c17pda::c17_fixed_manifest().iter()
                 .map(|(n, s, b, f)| json!([n, s, b, f])).collect::<Vec<_>>()});
